@@ -100,25 +100,42 @@ pub fn run_cross_convertible(seed: u64, count: usize, out: &mut dyn Write) {
     let db = rbx_reflection_database::get();
     let known: Vec<gen::KnownProp> = gen::known_props(db)
         .into_iter()
-        .filter(|k| matches!(k.ty, T::Int64 | T::Float64 | T::Enum | T::BrickColor) && k.name != "UniqueId")
+        .filter(|k| matches!(k.ty, T::Int64 | T::Float64 | T::Enum | T::BrickColor | T::ContentId | T::Tags) && k.name != "UniqueId")
         .collect();
     let mut rng = StdRng::seed_from_u64(seed);
     for i in 0..count {
         let mut dom = WeakDom::new(rbx_dom_weak::InstanceBuilder::new("DataModel"));
         let root = dom.root_ref();
+        // a Content value for a ContentId property is converted by rbx_xml only; rbx_binary refuses it with a type
+        // mismatch (a difference between the codecs that the specification names): such cases are kept apart
+        let xml_only = i % 5 == 4;
         for n in 0..rng.gen_range(1..4) {
-            let k = &known[rng.gen_range(0..known.len())];
+            let k = loop {
+                let k = &known[rng.gen_range(0..known.len())];
+                if (k.ty == T::ContentId) == xml_only {
+                    break k;
+                }
+            };
             let v = match k.ty {
                 T::Int64 => Variant::Int32(gen::i32_any(&mut rng)),
                 T::Float64 => Variant::Float32(gen::f32_any(&mut rng)),
                 T::Enum => Variant::EnumItem(EnumItem { ty: "Verif".to_string(), value: rng.gen_range(0..6) }),
+                T::ContentId => Variant::Content(match rng.gen_range(0..3) {
+                    0 => Content::none(),
+                    1 => Content::from_uri(""),
+                    _ => Content::from_uri(["rbxassetid://5", "http://x/?a=1&b=<2>"][rng.gen_range(0..2)]),
+                }),
+                T::Tags => Variant::BinaryString([&b""[..], b"alpha", b"alpha\0beta gamma\0\xc3\xa9"][rng.gen_range(0..3)].to_vec().into()),
                 _ => Variant::Int32(gen::BRICK_NUMBERS[rng.gen_range(0..gen::BRICK_NUMBERS.len())] as i32),
             };
             dom.insert(root, rbx_dom_weak::InstanceBuilder::new(k.class.as_str()).with_name(format!("Conv{}", n)).with_property(k.name.as_str(), v));
         }
         let roots: Vec<Ref> = dom.root().children().to_vec();
-        let ev = json!({"ep": format!("conv:{}:{}", seed, i), "op": "cross_case", "convertible": 1, "before": pforest(&dom, &roots),
-                        "bin": bin_trip(&dom, &roots), "xml": xml_trip(&dom, &roots, "IgnoreUnknown", "IgnoreUnknown")});
+        let mut ev = json!({"ep": format!("conv:{}:{}", seed, i), "op": "cross_case", "convertible": 1, "before": pforest(&dom, &roots),
+                            "bin": bin_trip(&dom, &roots), "xml": xml_trip(&dom, &roots, "IgnoreUnknown", "IgnoreUnknown")});
+        if xml_only {
+            ev["xml_only"] = json!(1);
+        }
         serde_json::to_writer(&mut *out, &ev).unwrap();
         out.write_all(b"\n").unwrap();
     }
